@@ -293,7 +293,11 @@ fn cmd_check(id: &str, tier: &str) {
         let plain = std::env::current_exe().ok().and_then(|p| p.parent().and_then(|d| d.parent()).map(|t| t.join("plain").join("snowsim")));
         second_build = match plain {
             Some(p) if p.exists() => {
-                let child_ev = format!("{}/.second-build", evidence_dir());
+                // the second build's own evidence file is scratch (its summary goes into ours)
+                let child_ev = match std::env::current_exe().ok().and_then(|p| p.parent().and_then(|d| d.parent()).map(|t| t.join("second-build-evidence"))) {
+                    Some(d) => d.display().to_string(),
+                    None => format!("{}-second-build", evidence_dir()),
+                };
                 let out = std::process::Command::new(&p)
                     .arg("check")
                     .arg(id)
